@@ -55,6 +55,26 @@ func (e *Enc) external(cur *cursor, v ssa.Value, callee *ssa.Function, args []Va
 		e.setResults(cur, v, sig, ts)
 	}
 	st := cur.st
+	if strings.HasPrefix(full, "slices.SortStableFunc[") {
+		// assumed contract: permutes the elements of the slice in place (stably, ordered by cmp); everything
+		// else is untouched; cmp is only applied to elements of the slice
+		sl := at(0)
+		elT := c.Args[0].Type().Underlying().(*types.Slice).Elem()
+		an, as := e.cellArr(elT)
+		arr := e.heapGet(st, an, as)
+		na := e.fresh(an, "(Array Addr "+as+")")
+		e.nfresh++
+		perm := fmt.Sprintf("sperm!%d", e.nfresh)
+		e.declare(fmt.Sprintf("(declare-fun %s (Int) Int)", perm))
+		el := func(arrT, k string) string { return fmt.Sprintf("(select %s %s)", arrT, selemT(sl, k)) }
+		rng := func(k string) string { return fmt.Sprintf("(and (<= 0 %s) (< %s (sl_len %s)))", k, k, sl) }
+		e.assume(cur.guard, fmt.Sprintf("(forall ((j Int)) (! (=> %s (and %s (= %s %s))) :pattern (%s)))", rng("j"), rng("("+perm+" j)"), el(na, "j"), el(arr, "("+perm+" j)"), el(na, "j")))
+		e.assume(cur.guard, fmt.Sprintf("(forall ((a Addr)) (! (=> (not (and ((_ is Elem) a) (= (elem_a a) (sl_base %s)) (<= (sl_off %s) (elem_i a)) (< (elem_i a) (+ (sl_off %s) (sl_len %s))))) (= (select %s a) (select %s a))) :pattern ((select %s a))))", sl, sl, sl, sl, na, arr, na))
+		st.heap[an] = na
+		e.assumedCallees["ext:slices.SortStableFunc"] = true
+		e.setResults(cur, v, sig, nil)
+		return true
+	}
 	switch full {
 	case "errors.New", "fmt.Errorf":
 		set(e.newError(cur))
